@@ -47,6 +47,7 @@ Theorem C11_roundtrip :
   forall (nbuf wcap rcap : N) (ops : list op) (frags : list N) (eofdata : bool),
     (16 <= wcap)%N -> (16 <= rcap)%N ->
     close_only_last ops -> ends_flushed ops -> Forall op_in_domain ops ->
+    Forall (ty_fits rcap) (types_of ops) ->
     let s := run_sender nbuf wcap ops in
     let out := recv_all rcap (types_of ops) (r_init (mkT (wire_bytes s) frags eofdata 0)) in
     snd out = Some (values_of ops) /\
@@ -77,14 +78,14 @@ Print Assumptions C11_domain.
    fails (the stream ends first) the receive returns io.EOF.  Includes
    ReceiveData of any length (Fill is asked for min(need, readBufSize)). *)
 Theorem C11_recv_refines :
-  forall (rcap : N), (16 <= rcap)%N -> forall (t : ty) (r : receiver), RInv rcap r ->
+  forall (rcap : N), (16 <= rcap)%N -> forall (t : ty) (r : receiver), ty_fits rcap t -> RInv rcap r ->
     refines rcap r (recv_ty rcap t r) (parse_ty t (all r)).
 Proof. exact recv_ty_refines. Qed.
 Print Assumptions C11_recv_refines.
 
 (* ... and for whole receive sequences (any types, matching the sender or not) *)
 Theorem C11_recv_all_refines :
-  forall (rcap : N), (16 <= rcap)%N -> forall (tys : list ty) (r : receiver), RInv rcap r ->
+  forall (rcap : N), (16 <= rcap)%N -> forall (tys : list ty) (r : receiver), Forall (ty_fits rcap) tys -> RInv rcap r ->
     let out := recv_all rcap tys r in
     RInv rcap (fst out) /\ pulled r (fst out) /\
     match parse_all tys (all r) with
@@ -98,7 +99,7 @@ Print Assumptions C11_recv_all_refines.
    return is EOF: never ESpin (= Fill called with more than the buffer can
    hold, where the Go read loop would not terminate), never fuel exhaustion. *)
 Theorem C11_fill_bound :
-  forall (rcap : N), (16 <= rcap)%N -> forall t r r' e, RInv rcap r ->
+  forall (rcap : N), (16 <= rcap)%N -> forall t r r' e, ty_fits rcap t -> RInv rcap r ->
     recv_ty rcap t r = (r', inr e) -> e = EEOF.
 Proof. exact recv_ty_only_eof. Qed.
 Print Assumptions C11_fill_bound.
@@ -107,12 +108,27 @@ Print Assumptions C11_fill_bound.
    Flushed = number of chunks, every chunk is non-empty and at most one
    buffer long. *)
 Theorem C11_stats_sender :
-  forall (nbuf wcap : N), (0 < wcap)%N -> (16 <= wcap)%N -> forall ops,
+  forall (nbuf wcap : N), (0 < wcap)%N -> (16 <= wcap)%N -> forall ops, Forall (raw_fits wcap) ops ->
     let s := run_sender nbuf wcap ops in
     s_sent s = nlen (wire_bytes s) /\ s_flushed s = nlen (s_chunks s) /\
     Forall (fun c => (0 < nlen (snd c) <= wcap)%N) (s_chunks s).
 Proof. exact sender_counters. Qed.
 Print Assumptions C11_stats_sender.
+
+(* Counters after ANY op sequence over the whole op vocabulary — the Send*
+   methods, Flush, Close AND the in-place write API (NeedSpace(n) followed by a
+   store at WriteBuf[WritePos:], op [ORaw], whose buffer rollover happens
+   inside NeedSpace) — for all buffer sizes, without any size hypothesis:
+   Sent = number of bytes handed to the writer, Flushed = number of chunks,
+   no chunk is empty.  (C11_stats_sender adds the chunk-size bound under the
+   domain [raw_fits]: the caller stores at most the n bytes it asked for and
+   n fits a buffer.)  The round-trip, refinement and stats theorems range over
+   the same vocabulary; the in-place read (Fill(k), ReadBuf[ReadStart:..],
+   type [TRaw k]) is in the domain when k <= readBufSize ([ty_fits]). *)
+Theorem C11_stats_counters :
+  forall (nbuf wcap : N) (ops : list op), KInv (run_sender nbuf wcap ops).
+Proof. exact KInv_run. Qed.
+Print Assumptions C11_stats_counters.
 
 (* Stats agree with the bytes moved.  For all buffer sizes >= 16, every op
    sequence, every segmentation, EOF with or after the final bytes, and ANY
@@ -125,7 +141,7 @@ Print Assumptions C11_stats_sender.
    matching sequence this is the case (with the values of C11_roundtrip). *)
 Theorem C11_stats_agree :
   forall (nbuf wcap rcap : N) (ops : list op) (frags : list N) (eofdata : bool) (tys : list ty),
-    (16 <= wcap)%N -> (16 <= rcap)%N ->
+    (16 <= wcap)%N -> (16 <= rcap)%N -> Forall (ty_fits rcap) tys ->
     let s := run_sender nbuf wcap ops in
     let out := recv_all rcap tys (r_init (mkT (wire_bytes s) frags eofdata 0)) in
     s_sent s = nlen (wire_bytes s) /\
